@@ -60,7 +60,7 @@ def is_prime(n, rounds=40):
 
 def main():
     tier = common.tier()
-    n = 4000 if tier == "quick" else 60000
+    n = 20000 if tier == "quick" else 200000
     jobs = [dict(seed="%d/%s/%s" % (common.seed(), PROP, be), backend=be, n=(n if be != "qaptools" else n // 6)) for be in CONFIGS]
     R = common.Run(PROP, "exploration", RULE)
     for job, res, err in shard.run_jobs("vf.checks.C13", "worker", jobs, timeout=3600, nproc=16, shims=("flatbuffers",)):
